@@ -93,6 +93,15 @@ func (ex *Exec) fresh(kind string, w int) *Term {
 	return t
 }
 
+// freshRanged: a fresh input whose unsigned value lies in [lo,hi] (range carried by the
+// variable itself; the name includes the range because names are reused across paths).
+func (ex *Exec) freshRanged(kind string, w int, lo, hi uint64) *Term {
+	t := ex.tc.VarRanged(fmt.Sprintf("v%d_%s_r%d_%d", ex.nvars, kind, lo, hi), w, lo, hi)
+	ex.nvars++
+	ex.inputs = append(ex.inputs, inputRec{T: kind, vars: []*Term{t}})
+	return t
+}
+
 func (ex *Exec) argStr(v Value) string {
 	s := v.(*StrV)
 	if !s.Concrete() {
@@ -122,6 +131,13 @@ func init() {
 		z + "Bool": func(ex *Exec, fn *ssa.Function, args []Value, site token.Pos) Value {
 			t := ex.fresh("bool", 1)
 			return ex.tc.Eq(t, ex.tc.Const(1, 1))
+		},
+		z + "IntRange": func(ex *Exec, fn *ssa.Function, args []Value, site token.Pos) Value {
+			lo, hi := ex.argInt(args[0]), ex.argInt(args[1])
+			if lo < 0 || hi < lo {
+				ex.unsupported("IntRange needs 0 <= lo <= hi")
+			}
+			return ex.freshRanged("int", 64, uint64(lo), uint64(hi))
 		},
 		z + "Bytes": func(ex *Exec, fn *ssa.Function, args []Value, site token.Pos) Value {
 			return ex.byteSlice(ex.freshBytes(int(ex.argInt(args[0]))))
@@ -424,6 +440,10 @@ func init() {
 			ex.stub("time.now (fixed instant 2026-09-21T17:46:40Z; natively the real clock)")
 			return TupleV{ex.tc.Const(64, 1790012800), ex.tc.Const(32, 0), ex.tc.Const(64, 1)}
 		},
+		"time.initLocal": func(ex *Exec, fn *ssa.Function, a []Value, site token.Pos) Value {
+			ex.stub("time.initLocal (local zone = UTC; natively the sandbox's zone, which is UTC)")
+			return nil
+		},
 		"time.runtimeNano": func(ex *Exec, fn *ssa.Function, a []Value, site token.Pos) Value { return ex.tc.Const(64, 1) },
 		"os.Exit": func(ex *Exec, fn *ssa.Function, a []Value, site token.Pos) Value { ex.abort("exit", "os.Exit called"); return nil },
 		"os.Getenv": func(ex *Exec, fn *ssa.Function, a []Value, site token.Pos) Value {
@@ -631,6 +651,20 @@ func (ex *Exec) symFormat(name, format string, argv SliceV) (*StrV, bool) {
 				return nil, false
 			}
 			i++
+			// flags / width: only %0Nd and %Nd (zero or space padding) are modelled
+			pad := byte(' ')
+			width := 0
+			if format[i] == '0' {
+				pad = '0'
+				i++
+			}
+			for i < len(format) && format[i] >= '0' && format[i] <= '9' {
+				width = width*10 + int(format[i]-'0')
+				i++
+			}
+			if i >= len(format) {
+				return nil, false
+			}
 			switch format[i] {
 			case '%':
 				out = append(out, ex.tc.Const(8, '%'))
@@ -641,11 +675,20 @@ func (ex *Exec) symFormat(name, format string, argv SliceV) (*StrV, bool) {
 						s, ok = ex.fmtDecimalArg(iv)
 					}
 				}
-				if !ok || (format[i] == 'd' && false) {
+				if !ok {
 					return nil, false
 				}
 				ai++
-				out = append(out, ex.strBytes(s)...)
+				bs := ex.strBytes(s)
+				if len(bs) < width {
+					if pad == '0' && len(bs) > 0 && bs[0].IsConst() && bs[0].val == '-' {
+						return nil, false // sign-aware zero padding not modelled
+					}
+					for k := len(bs); k < width; k++ {
+						out = append(out, ex.tc.Const(8, uint64(pad)))
+					}
+				}
+				out = append(out, bs...)
 			default:
 				return nil, false
 			}
